@@ -188,7 +188,7 @@ package nbio
 //@   assigns c.isWAdded, kEv[c.fd], kMods[c.fd], allocates
 
 //@ func (*Conn).Write
-//@   props C01 C17 C04 C03
+//@   props C01 C17 C04 C03 C16
 //@   safety index slice nil div assert panic make lock lockset
 //@   requires Wired(c) && isStream(c) && !holds(c.mux) && Registered(c) && !c.gTok
 //@   ensures ret: result1 == nil ==> result0 == len(b)                                     // prop C01
@@ -196,7 +196,8 @@ package nbio
 //@   ensures afterclose: c.gClosedAtLock ==> result1 == net.ErrClosed && kSent[c.fd] == c.gSentSnap    // prop C03
 //@   ensures notoken: !c.gTok                                                                // prop C03
 //@   assigns everything
-//@   at lock#1 ghost { c.gSentSnap = kSent[c.fd] }
+//@   at lock#1 ghost { c.gSentSnap = kSent[c.fd]; c.gWT0 = c.wTimer }
+//@   at unlock#3 assert wtimer: len(c.writeList) == 0 ==> c.wTimer == nil && (c.gWT0 != 0 ==> !tArmed[c.gWT0])   // prop C16
 //@   at unlock#3 ghost { c.gAcc = c.gAcc + ite(err == nil, n, 0) }
 
 // ---- total length of a list of buffers: sumlen(row(in), off(in), k) = len(in[0]) + ... + len(in[k-1])
@@ -283,7 +284,7 @@ package nbio
 //@     invariant ArmInv(c) && kMods[c.fd] == c.gMods0 && (c.gSawQ ==> kEv[c.fd] >= 0 && c.isWAdded)
 
 //@ func (*Conn).Writev
-//@   props C01 C17 C04 C03
+//@   props C01 C17 C04 C03 C16
 //@   safety index slice nil div assert panic make lock lockset
 //@   requires Wired(c) && isStream(c) && !holds(c.mux) && Registered(c) && !c.gTok
 //@   ensures ret: result1 == nil ==> result0 == total(in)                                  // prop C01
@@ -291,7 +292,8 @@ package nbio
 //@   ensures afterclose: c.gClosedAtLock ==> result1 == net.ErrClosed && kSent[c.fd] == c.gSentSnap    // prop C03
 //@   ensures notoken: !c.gTok                                                                // prop C03
 //@   assigns everything
-//@   at lock#1 ghost { c.gSentSnap = kSent[c.fd] }
+//@   at lock#1 ghost { c.gSentSnap = kSent[c.fd]; c.gWT0 = c.wTimer }
+//@   at unlock#3 assert wtimer: len(c.writeList) == 0 ==> c.wTimer == nil && (c.gWT0 != 0 ==> !tArmed[c.gWT0])   // prop C16
 //@   at lock#1 assert hint: sumlen(row(in), off(in), 0) == 0
 //@   at unlock#3 ghost { c.gAcc = c.gAcc + ite(err == nil, n, 0) }
 
@@ -415,7 +417,7 @@ package nbio
 //@     invariant forall p int {mem(c.writeList, p)} :: qlo(c) <= p && p < qhi(c) ==> mem(c.writeList, p).gSeq == c.gSeq0 + p - qlo(c)
 
 //@ func (*Conn).closeWithError
-//@   props C03
+//@   props C03 C16
 //@   safety index slice nil div assert panic make lock lockset
 //@   requires !holds(c.mux) && Registered(c) && (c.p != nil ==> c.p.g.Config.BodyAllocator != nil) && !c.gTok && (c.p == nil ==> c.writeList == nil)
 //@   ensures closed: c.closed && !holds(c.mux)                                                     // prop C03
@@ -423,7 +425,8 @@ package nbio
 //@   ensures first: !c.gClosedAtLock ==> c.closeErr == err && c.gNotified == c.gNotSnap + ite(c.p != nil && c.typ != ConnTypeUDPServer, 1, 0)   // prop C03
 //@   ensures notoken: !c.gTok                                                                // prop C03
 //@   assigns everything
-//@   at lock#1 ghost { c.gNotSnap = c.gNotified; c.gErrSnap = c.closeErr }
+//@   at lock#1 ghost { c.gNotSnap = c.gNotified; c.gErrSnap = c.closeErr; c.gRT0 = c.rTimer; c.gWT0 = c.wTimer }
+//@   at unlock#1 assert timers: c.rTimer == nil && c.wTimer == nil && (c.gRT0 != 0 ==> !tArmed[c.gRT0]) && (c.gWT0 != 0 ==> !tArmed[c.gWT0])   // prop C16
 
 //@ func (*Conn).Close
 //@   props C03
@@ -511,3 +514,66 @@ package nbio
 //@   at lock#1 ghost { c.gJLenSnap = len(c.jobList) }
 //@   at unlock#1 assert tail: len(c.jobList) == c.gJLenSnap + 1                             // prop C05
 //@   at unlock#1 ghost { c.gJobAt[c.gJSub] = job; c.gJSub = c.gJSub + 1; c.gJRun = c.gJRun + ite(c.gJLenSnap == 0, 1, 0); c.gJNext = ite(c.gJLenSnap == 0, 0, c.gJNext); c.gDNext = ite(c.gJLenSnap == 0, 0, c.gDNext); c.gDToken = (c.gJLenSnap == 0); c.gJActive = true }
+
+// ---- deadlines (C16): at most one live timer per direction, held in rTimer / wTimer under the connection mutex
+//@ ghost local Conn.gRT0 : Int
+//@ ghost local Conn.gWT0 : Int
+//@ ghost local Conn.gZero : Bool
+//@ protected Conn by mux: rTimer, wTimer
+//@ moninv timers: self.rTimer != nil && self.wTimer != nil ==> self.rTimer != self.wTimer       // prop C16
+
+//@ pred ConnOK(c *Conn) := c.p != nil && c.p.g != nil && c.p.g.Timer != nil && c.p.g.Config.BodyAllocator != nil && Registered(c)
+//@ func (*Conn).SetDeadline
+//@   props C16
+//@   safety index slice nil div assert panic make lock lockset
+//@   requires ConnOK(c) && !holds(c.mux) && !c.gTok
+//@   ensures unlocked: !holds(c.mux) && !c.gTok                                              // prop C16
+//@   assigns everything
+//@   at lock#1 ghost { c.gRT0 = c.rTimer; c.gWT0 = c.wTimer }
+//@   at call:IsZero#1 ghost { c.gZero = result }
+//@   at unlock#1 assert set: !c.gClosedAtLock && !c.gZero ==> c.rTimer != nil && c.wTimer != nil && tArmed[c.rTimer] && tArmed[c.wTimer]   // prop C16
+//@   at unlock#1 assert one: !c.gClosedAtLock && !c.gZero ==> (c.gRT0 != 0 ==> c.rTimer == c.gRT0) && (c.gWT0 != 0 ==> c.wTimer == c.gWT0)   // prop C16
+//@   at unlock#1 assert clear: !c.gClosedAtLock && c.gZero ==> c.rTimer == nil && c.wTimer == nil && (c.gRT0 != 0 ==> !tArmed[c.gRT0]) && (c.gWT0 != 0 ==> !tArmed[c.gWT0])   // prop C16
+//@   at unlock#1 assert closednoop: c.gClosedAtLock ==> c.rTimer == c.gRT0 && c.wTimer == c.gWT0   // prop C16
+//@ func (*Conn).SetDeadline$1
+//@   props C16
+//@   requires thread: !holds(c.mux) && !c.gTok
+//@   requires c != nil && Registered(c) && (c.p != nil ==> c.p.g.Config.BodyAllocator != nil) && (c.p == nil ==> c.writeList == nil)
+//@   assigns everything
+//@   at before:closeWithError#1 assert cause: arg_err == errReadTimeout                       // prop C16
+//@ func (*Conn).SetDeadline$2
+//@   props C16
+//@   requires thread: !holds(c.mux) && !c.gTok
+//@   requires c != nil && Registered(c) && (c.p != nil ==> c.p.g.Config.BodyAllocator != nil) && (c.p == nil ==> c.writeList == nil)
+//@   assigns everything
+//@   at before:closeWithError#1 assert cause: arg_err == errWriteTimeout                      // prop C16
+
+//@ ghost local Conn.gT0 : Int
+//@ func (*Conn).setDeadline
+//@   props C16
+//@   safety index slice nil div assert panic make lock lockset
+//@   requires timer != nil && ConnOK(c) && !holds(c.mux) && !c.gTok
+//@   ensures unlocked: !holds(c.mux) && !c.gTok                                              // prop C16
+//@   assigns everything
+//@   at lock#1 ghost { c.gT0 = *timer }
+//@   at call:IsZero#1 ghost { c.gZero = result }
+//@   at unlock#1 assert set: !c.gClosedAtLock && !c.gZero ==> *timer != nil && tArmed[*timer] && (c.gT0 != 0 ==> *timer == c.gT0)   // prop C16
+//@   at unlock#1 assert clear: !c.gClosedAtLock && c.gZero ==> *timer == nil && (c.gT0 != 0 ==> !tArmed[c.gT0])   // prop C16
+//@   at unlock#1 assert closednoop: c.gClosedAtLock ==> *timer == c.gT0                       // prop C16
+//@ func (*Conn).setDeadline$1
+//@   props C16
+//@   requires thread: !holds(c.mux) && !c.gTok
+//@   requires c != nil && Registered(c) && (c.p != nil ==> c.p.g.Config.BodyAllocator != nil) && (c.p == nil ==> c.writeList == nil)
+//@   assigns everything
+//@   at before:closeWithError#1 assert cause: arg_err == errClose                              // prop C16
+
+//@ func (*Conn).SetReadDeadline
+//@   props C16
+//@   safety index slice nil div assert panic make
+//@   requires ConnOK(c) && !holds(c.mux) && !c.gTok
+//@   assigns everything
+//@ func (*Conn).SetWriteDeadline
+//@   props C16
+//@   safety index slice nil div assert panic make
+//@   requires ConnOK(c) && !holds(c.mux) && !c.gTok
+//@   assigns everything
